@@ -246,9 +246,9 @@ fn gen_linestring(r: &mut Rng) -> Vec<IP> {
     let mut v = if r.chance(1, 6) {
         gen_closed(r, shape != Shape::General)
     } else {
-        // (one open line in 200: a track of realistic length - a segment count just beyond a power of two, or 130-700)
-        let nseg = match r.below(200) {
-            199 => crate::gen::long_count(r),
+        // (one open line in 500: a track of realistic length - a segment count just beyond a power of two, or 130-700)
+        let nseg = match r.below(500) {
+            499 => crate::gen::long_count(r),
             k if k % 10 <= 1 => 1,
             k if k % 10 == 9 => r.range(9, 40) as usize,
             _ => r.range(2, 8) as usize,
